@@ -21,11 +21,16 @@ type RefEntry struct {
 }
 
 type RefTable struct {
-	Entries  map[string]*RefEntry `json:"entries"`
+	Entries map[string]*RefEntry `json:"entries"`
+	// Steps[run index] = serial step count of that run's workload (calibration
+	// for change points and the step budget), measured by the plain build.
+	Steps    map[string]int64 `json:"steps,omitempty"`
 	computed int
 }
 
-func newRefTable() *RefTable { return &RefTable{Entries: map[string]*RefEntry{}} }
+func newRefTable() *RefTable {
+	return &RefTable{Entries: map[string]*RefEntry{}, Steps: map[string]int64{}}
+}
 
 func (t *RefTable) load(path string) error {
 	b, err := os.ReadFile(path)
@@ -82,7 +87,8 @@ func (w *Worker) refDiags(checker string, params map[string]any, goVersion, pkg 
 
 func (w *Worker) computeRef(info *linter.CheckerInfo, params map[string]any, goVersion, pkg string, file int) (e *RefEntry) {
 	e = &RefEntry{}
-	cp := w.ref.Pkgs[pkg]
+	ref := w.refCorpus()
+	cp := ref.Pkgs[pkg]
 	if cp == nil {
 		e.Err = "package not in reference corpus"
 		return
@@ -107,7 +113,7 @@ func (w *Worker) computeRef(info *linter.CheckerInfo, params map[string]any, goV
 			e.Panic = fmt.Sprint(r)
 		}
 	}()
-	ctx := linter.NewContext(w.ref.Fset, w.ref.Sizes)
+	ctx := linter.NewContext(ref.Fset, ref.Sizes)
 	ctx.SetGoVersion(goVersion)
 	c, err := linter.NewChecker(ctx, info)
 	if err != nil {
@@ -118,7 +124,20 @@ func (w *Worker) computeRef(info *linter.CheckerInfo, params map[string]any, goV
 	f := cp.Files[file]
 	ctx.SetFileInfo(cp.FileNames[file], f)
 	for _, wn := range c.Check(f) {
-		e.Diags = append(e.Diags, diagFromWarning(w.ref.Fset, pkg, info.Name, wn))
+		e.Diags = append(e.Diags, diagFromWarning(ref.Fset, pkg, info.Name, wn))
 	}
 	return
+}
+
+// refCorpus loads the reference corpus on first use (an independent second
+// parse and type-check of the same packages, in its own file set).
+func (w *Worker) refCorpus() *Corpus {
+	if w.ref == nil {
+		c, err := LoadCorpus(w.job.RepoDir, w.need, extraCorpus())
+		if err != nil {
+			panic("reference corpus: " + err.Error())
+		}
+		w.ref = c
+	}
+	return w.ref
 }
